@@ -741,7 +741,7 @@ class StmtMixin:
                 cur = self.get_attr(base, name)
             except PyRaise:
                 continue
-            self.set_attr(base, name, self.fresh_like(cur, expr))
+            self.set_attr(base, name, self.fresh_typed(inv, expr) if expr in inv.types else self.fresh_like(cur, expr))
 
     def fresh_typed(self, inv, name):
         from .verify import make_symbolic
